@@ -211,9 +211,13 @@ pub fn run(ctx: &mut Ctx) {
                                 }
                                 // fault-free run also tells how many next() calls there are to fail
                                 elems::reset_all();
-                                let calls = match catch(|| cc!(None)) {
-                                    Ok(Ok((_, calls))) => calls,
-                                    _ => 0,
+                                let calls = if !ctx.prerun(&d, &format!("{d};k=-")) {
+                                    0
+                                } else {
+                                    match catch(|| cc!(None)) {
+                                        Ok(Ok((_, calls))) => calls,
+                                        _ => 0,
+                                    }
                                 };
                                 ctx.case(&format!("{d};k=-"), || cc!(None).map(|x| x.0));
                                 // panics at every call index: all hints for small N, the three hint families otherwise
